@@ -180,7 +180,8 @@ type Result struct {
 	Loads  []string // binary CIDs in load order
 	Err    string   // non-empty when the reference walk hits a missing link target
 	// bookkeeping for the traversal-control relations (C15)
-	LoadPath     []string // path (joined) at which each load happened
+	LoadPath     []string   // path (joined) at which each load happened
+	LoadSegs     [][]string // the same as segment lists
 	VisitsBefore []int    // number of visits made before each load
 	Recursed     bool     // some recursive edge was actually followed
 }
@@ -199,6 +200,8 @@ type interp struct {
 	store map[string]val.V
 	res   *Result
 	skip  map[string]bool // links whose blocks the loader skips (C15)
+	once  bool            // visit links only once (C15)
+	seen  map[string]bool
 }
 
 func (in *interp) enter(s *Sel, ctx []recCtx) []thread {
@@ -369,7 +372,14 @@ func (in *interp) walk(node val.V, path []string, threads []thread) bool {
 		}
 		cp := append(append([]string{}, path...), seg)
 		if child.K == val.Link {
+			if in.once {
+				if in.seen[child.S] {
+					continue
+				}
+				in.seen[child.S] = true
+			}
 			in.res.Loads = append(in.res.Loads, child.S)
+			in.res.LoadSegs = append(in.res.LoadSegs, cp)
 			in.res.LoadPath = append(in.res.LoadPath, join(cp))
 			in.res.VisitsBefore = append(in.res.VisitsBefore, len(in.res.Visits))
 			if in.skip[child.S] {
@@ -398,6 +408,14 @@ func Walk(g graph.Graph, s Sel) Result {
 func WalkSkipping(g graph.Graph, s Sel, skip map[string]bool) Result {
 	var res Result
 	in := &interp{store: g.Store(), res: &res, skip: skip}
+	in.walk(g.Root, nil, in.enter(&s, nil))
+	return res
+}
+
+// WalkOnce is Walk where a link that was already loaded once is not followed again.
+func WalkOnce(g graph.Graph, s Sel) Result {
+	var res Result
+	in := &interp{store: g.Store(), res: &res, once: true, seen: map[string]bool{}}
 	in.walk(g.Root, nil, in.enter(&s, nil))
 	return res
 }
